@@ -462,8 +462,9 @@ def gen_cases(rng, tier):
         add({"kind": "wire_dec", "doc": d})
     add({"kind": "impl", "what": "yaml_nonstring_key"})
     add({"kind": "impl", "what": "wire_nonfinite"})
+    add({"kind": "impl", "what": "yaml_leading_newline"})
 
-    for _ in range(260 * n):
+    for _ in range(180 * n):
         codec = "json" if rng.random() < 0.7 else "yaml"
         strict = rng.random() < 0.7
         alpha = ALPHA if codec == "json" else ALPHA[:8]
@@ -475,7 +476,7 @@ def gen_cases(rng, tier):
             add({"kind": "round", "codec": codec, "strict": strict, "doc": d})
         else:
             add({"kind": "enc", "codec": codec, "strict": strict, "rv": rv_of_doc(d, strict)})
-    for _ in range(200 * n):
+    for _ in range(140 * n):
         codec = "json" if rng.random() < 0.75 else "yaml"
         add({"kind": "enc", "codec": codec, "strict": rng.random() < 0.75, "rv": gen_rv(rng, rng.randrange(1, 4))})
     for _ in range(40 * n):
@@ -493,15 +494,15 @@ def gen_cases(rng, tier):
             add({"kind": "bits_mask", "elems2": rng.choice([[-2, 4], [1], [2, -2], [3, 4]])})
         if r < 0.5:
             add({"kind": "bits_rt", "n": rng.randrange(0, 2 ** 53)})
-    for _ in range(120 * n):
+    for _ in range(90 * n):
         add({"kind": "csv", "m": gen_matrix(rng)})
     for _ in range(40 * n):
         add({"kind": "csv_dec", "inp": [rng.choice(CSV_ALPHA) for _ in range(rng.randrange(0, 9))]})
     for _ in range(10 * n):
         add({"kind": "csv_uni", "m": [[gen_string(rng, 3, ALPHA + [" ", "　", ","]) for _ in range(2)] for _ in range(rng.randrange(1, 3))]})
-    for _ in range(110 * n):
+    for _ in range(80 * n):
         add({"kind": "wire", "rv": gen_wire_safe(rng, rng.randrange(1, 4))})
-    for _ in range(70 * n):
+    for _ in range(50 * n):
         add({"kind": "wire", "rv": gen_rv(rng, rng.randrange(1, 3), wire=True)})
     for _ in range(40 * n):
         d = gen_doc(rng, 2, empty_key_p=0)
@@ -565,6 +566,8 @@ def sources(c):
     if k == "impl":
         if c["what"] == "yaml_nonstring_key":
             return [("a", "eval", {"src": "//encoding.yaml.decode('1: a')"}), ("b", "eval", {"src": "//encoding.yaml.decode('\"1\": a')"})]
+        if c["what"] == "yaml_leading_newline":
+            return [("a", "eval", {"src": "//encoding.yaml.decode(//encoding.yaml.encode((s: \"\\nz\")))"})]
         return [("a", "c13wire", {"src": "1/0"})]
     raise ValueError(k)
 
@@ -634,7 +637,8 @@ def impl_oracle(run, c, obs):
         good = b is not None and b.get("st") == "ok" and canon(b["val"]) == canon(a["val"])
         if not good:
             rec["oracle"] = "decode(encode(decode d)) = decode d on the implementation's own values"
-            run.classify_failure("q_json_key_unchecked" if has_empty_key(c["doc"]) else None, rec)
+            sig = "q_json_key_unchecked" if has_empty_key(c["doc"]) else ("q_yaml_leading_newline_lost" if c["codec"] == "yaml" and leading_nl(c["doc"]) else None)
+            run.classify_failure(sig, rec)
         return True, True
     if k == "bits_rt":
         good = a is not None and a.get("st") == "ok" and a["val"].get("n") is not None and float(a["val"]["n"]) == float(c["n"])
@@ -655,6 +659,13 @@ def impl_oracle(run, c, obs):
                 run.classify_failure("q_yaml_nonstring_keys_stringified", rec)
             else:
                 run.corr_breaks.append({"what": "known finding q_yaml_nonstring_keys_stringified no longer reproduces", **rec})
+        elif c["what"] == "yaml_leading_newline":
+            want = {"t": [["s", {"s": [{"t": [["@", {"n": "0"}], ["@char", {"n": "10"}]]}, {"t": [["@", {"n": "1"}], ["@char", {"n": "122"}]]}], "c": 2}]]}
+            if a and a.get("st") == "ok" and canon(a["val"]) != canon(want):
+                rec["oracle"] = "yaml decode(encode((s: \"\\nz\"))) = (s: \"\\nz\")"
+                run.classify_failure("q_yaml_leading_newline_lost", rec)
+            else:
+                run.corr_breaks.append({"what": "known finding q_yaml_leading_newline_lost no longer reproduces", **rec})
         else:
             if a and a.get("st") == "panic":
                 rec["oracle"] = "rel.MarshalToJSON(1/0) panics instead of returning an error"
@@ -694,6 +705,33 @@ def nontrivial(c):
     return False
 
 
+def cfg_term(run):
+    """the committed quirk set: a flag is on iff its finding is open in known_findings.txt"""
+    on = {f["sig"] for f in run.opened}
+    b = lambda sig: cbool(sig in on)
+    return ("{| c_j := {| q_json_strict_set_to_object := %s; q_json_offsets_holes_dropped := %s; q_json_multi_dict_panic := %s; "
+            "q_json_key_unchecked := %s; q_json_b_unchecked := %s; q_json_a_set_as_array := %s |}; "
+            "c_b := {| q_bits_set_unimplemented := %s; q_bits_mask_nonnatural := %s |}; "
+            "c_w := {| q_wire_sets_become_arrays := %s; q_wire_offsets_holes_lost := %s; q_wire_null_panics := %s |}; "
+            "c_csv_empty := %s |}") % tuple(b(x) for x in (
+                "q_json_strict_set_to_object", "q_json_offsets_holes_dropped", "q_json_multi_dict_panic", "q_json_key_unchecked",
+                "q_json_b_unchecked", "q_json_a_set_as_array", "q_bits_set_unimplemented", "q_bits_mask_nonnatural",
+                "q_wire_sets_become_arrays", "q_wire_offsets_holes_lost", "q_wire_null_panics", "q_csv_empty_input_rejected"))
+
+
+def leading_nl(x):
+    """a string (value, key, attribute) that begins with a newline, at any depth"""
+    if isinstance(x, str):
+        return x.startswith("\n")
+    if isinstance(x, dict):
+        return any(leading_nl(k) or leading_nl(v) for k, v in x.items())
+    if isinstance(x, list):
+        if len(x) == 3 and x[0] == "str" and isinstance(x[2], list):
+            return bool(x[2]) and x[2][0] == 10
+        return any(leading_nl(y) for y in x)
+    return False
+
+
 def run_cases(run, vh, cases, shard=400):
     reqs = {"eval": [], "c13wire": [], "c13wiredec": []}
     for c in cases:
@@ -722,7 +760,7 @@ def run_cases(run, vh, cases, shard=400):
         body = ["From Coq Require Import NArith.", "From Arrai Require Import Base.Val Sys.Outcome Sys.Json Sys.Bits Sys.Wire Sys.Csv Check.C13Check.",
                 "Definition cases : list kcase := ["]
         body.append(";\n".join("  {| k_id := %d; k_case := %s |}" % (cid, t) for cid, t in chunk))
-        body.append("].\nDefinition R := Eval vm_compute in report cases.\nPrint R.")
+        body.append("].\nDefinition G : cfg := %s.\nDefinition R := Eval vm_compute in report G cases.\nPrint R." % cfg_term(run))
         rc2, so, se = coq_eval("c13_cases_%d" % idx, "\n".join(body))
         return coq_report(so, "R"), se
 
@@ -786,7 +824,9 @@ def main(tier, seed, replay=None):
         if checked or code == 0:
             continue
         rec = {"case": {x: y for x, y in c.items() if x != "id"}, "observed": obs[c["id"]], "oracle": ORACLE.get(k, k), "model_code": code}
-        if code == 1:
+        if code in (1, 2) and c.get("codec") == "yaml" and leading_nl(c.get("doc", c.get("rv"))):
+            run.classify_failure("q_yaml_leading_newline_lost", rec)       # text layer (yaml.v3 emitter), outside the model
+        elif code == 1:
             if k in CORR_ONLY:
                 run.corr_breaks.append({"what": "implementation differs from the model", **rec})
             else:
